@@ -203,3 +203,11 @@ func must(err error) {
 
 // probesOnly reports whether the run is a search for a failing input (tie lines may be skipped).
 func probesOnly() bool { return os.Getenv("VERIF_PROBES_ONLY") != "" }
+
+// repoPath is the repository under test (VERIF_REPO for self-tests on scratch copies).
+func repoPath() string {
+	if p := os.Getenv("VERIF_REPO"); p != "" {
+		return p
+	}
+	return "/repo"
+}
